@@ -42,7 +42,8 @@ pub fn view(app: &RawApp, contract: Option<&Addr>) -> Value {
         v["code"] = json!(data.as_ref().map(|d| d.code_id.to_string()).unwrap_or_default());
         v["label"] = json!(data.as_ref().map(|d| d.label.clone()).unwrap_or_default());
         // the admin is reported by the name the history used for it (alice / bob), if it is one of them
-        let admin = data.as_ref().and_then(|d| d.admin.as_ref().map(|a| a.to_string())).unwrap_or_default();
+        // (no admin: ""; the empty string as the admin: "<empty>")
+        let admin = data.as_ref().and_then(|d| d.admin.as_ref().map(|a| if a.as_str().is_empty() { "<empty>".to_string() } else { a.to_string() })).unwrap_or_default();
         let name = ["alice", "bob"].iter().find(|n| sender(n).to_string() == admin).map(|n| n.to_string()).unwrap_or(admin);
         v["admin"] = json!(name);
         v["mark"] = json!(get(b"verif_mark"));
@@ -78,6 +79,9 @@ pub fn res_value(r: Result<Value, String>, code: u32) -> Value {
     match r {
         Ok(v) => json!({"ok": true, "kind": "value", "resp": {"attrs":[],"event_types":[],"data":""}, "value": v, "err": {"class":"","code":0,"text":""}}),
         Err(e) => {
+            // cosmwasm_std's QuerierWrapper (which the proxies query through) wraps a contract's error text this way;
+            // the raw query below reads the contract result itself
+            let e = e.strip_prefix("Generic error: Querier contract error: ").map(String::from).unwrap_or(e);
             let mentions = e.contains(&format!("boom {code}"));
             json!({"ok": false, "kind": "err", "resp": {"attrs":[],"event_types":[],"data":""}, "value": {"t":"-"},
                    "err": {"class": if mentions { "handler_text" } else { "other" }, "code": if mentions { code } else { 0 }, "text": e}})
